@@ -13,7 +13,7 @@ import re
 
 import z3
 
-from mir_parse import parse_mir, unescape_rust
+from mir_parse import Place, parse_mir, unescape_rust
 
 
 class Unsupported(Exception):
@@ -503,10 +503,57 @@ class Program:
                     self.closures[mo.group(0)] = name
         self.impl_index = {}
         self.impl_index_full = {}
+        self.repair_closure_aggregates()
         if src_root:
             load_enums(src_root)
             load_structs(src_root)
             self.build_impl_index(src_root)
+
+    def repair_closure_aggregates(self):
+        """rustc prints a closure aggregate by zipping the captured *variables'* names with the capture operands; when one variable
+        is captured through several disjoint places (`test.path`, `test.parser_type`) there are more operands than names and the
+        last operands are not printed.  The closure body says how many captures there are (highest field of `_1` it reads); the
+        missing operands are the temporaries assigned right before the aggregate, numbered after the last printed one."""
+        def places(x, out):
+            if isinstance(x, Place):
+                out.append(x)
+            elif isinstance(x, (tuple, list)):
+                for y in x:
+                    places(y, out)
+            return out
+
+        def captures(f):
+            n = 0
+            for stmts in f.blocks.values():
+                for pl in places(stmts, []):
+                    if pl.local == 1:
+                        proj = [q for q in pl.proj if q[0] != "deref"][:1] if pl.proj and pl.proj[0][0] == "deref" else pl.proj[:1]
+                        if proj and proj[0][0] == "field":
+                            n = max(n, proj[0][1] + 1)
+            return n
+        for name, f in self.funcs.items():
+            if name == "__errors__" or not hasattr(f, "blocks"):
+                continue
+            for stmts in f.blocks.values():
+                for si, st in enumerate(stmts):
+                    if st[0] != "assign" or st[2][0] != "agg" or st[2][1] != "closure":
+                        continue
+                    body = self.funcs.get(self.closures.get(st[2][2], ""))
+                    fields = st[2][3]
+                    if body is None or not fields:
+                        continue
+                    want = captures(body)
+                    last = fields[-1][1]
+                    while len(fields) < want:
+                        if last[0] not in ("move", "copy") or last[1].proj:
+                            break
+                        nxt_local = last[1].local + 1
+                        assigned = any(s2[0] == "assign" and s2[1].local == nxt_local and not s2[1].proj for s2 in stmts[:si])
+                        used_later = any(pl.local == nxt_local for s2 in stmts[si:] for pl in places(s2, []))
+                        if not assigned or used_later:
+                            break
+                        last = ("move", Place(nxt_local, []))
+                        fields.append(("<unprinted capture>", last))
 
     def build_impl_index(self, src_root):
         """call sites name impl methods `Type::m` / `<Type as Trait>::m`, definitions are printed as
@@ -1190,6 +1237,11 @@ class Ctx:
         vals = [self.operand(fr, f[1] if kind == "struct" else f) for f in fields]
         if len(segs) >= 2 and segs[-2] in ENUMS and segs[-1] in ENUMS[segs[-2]]:
             return Agg(segs[-2], segs[-1], vals)
+        if len(segs) == 1 and dest_ty:
+            # variants of enums of another crate are printed without their enum (`_1 = Cram;`): the local's type names it
+            tsegs = strip_generics(dest_ty)
+            if tsegs and tsegs[-1] in ENUMS and segs[0] in ENUMS[tsegs[-1]]:
+                return Agg(tsegs[-1], segs[0], vals)
         return Agg(segs[-1] if segs else path, None, vals)
 
     def discriminant(self, v):
